@@ -39,6 +39,7 @@ func main() {
 	pre := fs.String("pre", "", "spec pre-images computed by TLC (C15)")
 	vbias := fs.Int("vbias", 0, "validator-set op bias (C16)")
 	regone := fs.Bool("regone", false, "only v0 has an EVM address at genesis")
+	allreg := fs.Bool("allreg", false, "c17: all validators have EVM addresses from the start and the checkpoints order them differently")
 	signed := fs.Bool("signed", false, "messages travel as signed transactions through the installed ante handler")
 	signedhalf := fs.Bool("signedhalf", false, "every second history runs in signed mode")
 	minthalf := fs.Bool("minthalf", false, "every second history starts minting in its first block")
@@ -63,7 +64,7 @@ func main() {
 	case "c12tally":
 		err = h.RunC12Tally(*cases, *trace, *stats)
 	case "c17":
-		err = h.RunC17(*cases, *trace, *stats, *seed)
+		err = h.RunC17(*cases, *trace, *stats, *seed, *allreg)
 	case "c18":
 		err = h.RunC18(*cases, *trace, *stats, *seed)
 	case "c10sm":
